@@ -27,6 +27,9 @@ const (
 	maxDirEntrySize        sizeBytes   = 0xFF // record length is stored in one byte
 	volumeDescriptorsCount sizeSectors = 3
 	maxFilesSectors        sizeSectors = math.MaxInt32 - 1<<24
+	// Every file costs memory for its records in both hierarchies whatever its size is. Links to directories are
+	// followed, so a few real entries may be reachable by millions of paths.
+	maxFilesCount = 1 << 20
 
 	dotEntryIdentifier    = stringD1(byte(0))
 	dotDotEntryIdentifier = stringD1(byte(1))
@@ -226,6 +229,7 @@ func (viso *VirtualISO) buildFSStructures(volumeName string) error {
 func (viso *VirtualISO) scanDirectory() error {
 	// scan directory recursively using BFS to ensure that files will be located (rLBA) sequentially
 	queue := []string{viso.root} // paths
+	filesCount := 0
 
 	processDirectory := func(path string) error {
 		dir, err := viso.fs.Open(path)
@@ -279,6 +283,10 @@ func (viso *VirtualISO) scanDirectory() error {
 			// Some room is left for structures placed before files and for padding.
 			if fi.size > maxFilesSectors.bytes() || viso.filesSizeSectors > maxFilesSectors-fi.size.sectors() {
 				return fmt.Errorf("item %s: content of directory is too large for an image", fullPath)
+			}
+
+			if filesCount++; filesCount > maxFilesCount {
+				return fmt.Errorf("item %s: too many files for an image", fullPath)
 			}
 
 			dirItem.files = append(dirItem.files, fi)
